@@ -29,13 +29,14 @@ Lemma sqrt_bracket_spec q : 0 <= q ->
   snd (sqrt_bracket q) - fst (sqrt_bracket q) <= 1 # pow2b.
 Proof.
   intro Hq. unfold sqrt_bracket.
+  assert (P4pos : (0 <= pow4b)%Z) by (vm_compute; discriminate).
   pose proof (Qred_correct q) as Er.
   set (r := Qred q) in *. destruct r as [n d]. cbn [Qnum Qden].
   assert (Hn : (0 <= n)%Z).
   { assert (0 <= n # d) by (rewrite Er; exact Hq). unfold Qle in H. cbn in H. lia. }
   destruct (Z.leb_spec n 0) as [H0|H0].
   - assert (n = 0)%Z by lia. subst n. cbn [fst snd].
-    assert (q == 0) by (rewrite <- Er; reflexivity). rewrite H. repeat split; try lra. unfold Qle; cbn; lia.
+    assert (q == 0) by (rewrite <- Er; reflexivity). rewrite H. assert (0 <= 1 # pow2b) by (unfold Qle; cbn [Qnum Qden]; lia). repeat split; lra.
   - pose proof (zsqrt_spec n Hn) as [Sn0 Sn]. pose proof (zsqrt_spec (Zpos d) (Pos2Z.is_nonneg d)) as [Sd0 Sd].
     destruct (Z.eqb_spec (zsqrt n * zsqrt n) n) as [En|En]; cbn [andb].
     + destruct (Z.eqb_spec (zsqrt (Zpos d) * zsqrt (Zpos d)) (Zpos d)) as [Ed|Ed]; cbn [andb].
@@ -44,45 +45,49 @@ Proof.
         assert (Esq : (zsqrt n # Z.to_pos (zsqrt (Zpos d))) * (zsqrt n # Z.to_pos (zsqrt (Zpos d))) == q).
         { rewrite <- Er. rewrite Qmake_sq. unfold Qeq. cbn [Qnum Qden].
           rewrite Pos2Z.inj_mul. rewrite Z2Pos.id by exact Pd. rewrite En, Ed. reflexivity. }
-        assert (P0 : 0 <= zsqrt n # Z.to_pos (zsqrt (Zpos d))) by (unfold Qle; cbn; lia).
+        assert (P0 : 0 <= zsqrt n # Z.to_pos (zsqrt (Zpos d))) by (unfold Qle; cbn [Qnum Qden]; lia).
         repeat split; try lra.
         setoid_replace ((zsqrt n # Z.to_pos (zsqrt (Z.pos d))) - (zsqrt n # Z.to_pos (zsqrt (Z.pos d)))) with 0 by ring.
-        unfold Qle; cbn; lia.
+        unfold Qle; cbn [Qnum Qden]; lia.
       * cbn [fst snd]. apply (fun H => H).
         set (x := zsqrt (n * pow4b / Zpos d)).
-        assert (Hm : (0 <= n * pow4b / Zpos d)%Z) by (apply Z.div_pos; [unfold pow4b; cbn; lia|lia]).
+        assert (Hm : (0 <= n * pow4b / Zpos d)%Z) by (apply Z.div_pos; [apply Z.mul_nonneg_nonneg; [lia|exact P4pos]|lia]).
         pose proof (zsqrt_spec _ Hm) as [Sx0 Sx]. fold x in Sx0, Sx.
         assert (P4 : pow4b = (Zpos pow2b * Zpos pow2b)%Z) by (vm_compute; reflexivity).
         pose proof (Z.mul_div_le (n * pow4b) (Zpos d) (Pos2Z.is_pos d)) as D1.
         pose proof (Z.mul_succ_div_gt (n * pow4b) (Zpos d) (Pos2Z.is_pos d)) as D2.
         assert (Lo : (x # pow2b) * (x # pow2b) <= q).
-        { rewrite <- Er. rewrite Qmake_sq. unfold Qle. cbn [Qnum Qden]. rewrite Pos2Z.inj_mul. rewrite <- P4. nia. }
+        { rewrite <- Er. rewrite Qmake_sq. unfold Qle. cbn [Qnum Qden]. rewrite Pos2Z.inj_mul. rewrite <- P4.
+          apply (Z.le_trans _ ((n * pow4b / Zpos d) * Zpos d)); [apply Z.mul_le_mono_nonneg_r; lia|lia]. }
         assert (Hi : q <= ((x + 1) # pow2b) * ((x + 1) # pow2b)).
         { rewrite <- Er. rewrite Qmake_sq. unfold Qle. cbn [Qnum Qden]. rewrite Pos2Z.inj_mul. rewrite <- P4.
-          unfold Z.succ in D2. nia. }
+          unfold Z.succ in D2.
+          apply (Z.le_trans _ ((n * pow4b / Zpos d + 1) * Zpos d)); [lia|apply Z.mul_le_mono_nonneg_r; lia]. }
         assert (E1 : ((x + 1) # pow2b) - (x # pow2b) == 1 # pow2b).
         { unfold Qeq, Qminus, Qplus, Qopp. cbn [Qnum Qden]. rewrite !Pos2Z.inj_mul. ring. }
         repeat split; try assumption.
-        -- unfold Qle; cbn; lia.
-        -- unfold Qle; cbn [Qnum Qden]. nia.
+        -- unfold Qle; cbn [Qnum Qden]; lia.
+        -- unfold Qle; cbn [Qnum Qden]. apply Z.mul_le_mono_nonneg_r; lia.
         -- rewrite E1. lra.
     + cbn [fst snd].
       set (x := zsqrt (n * pow4b / Zpos d)).
-      assert (Hm : (0 <= n * pow4b / Zpos d)%Z) by (apply Z.div_pos; [unfold pow4b; cbn; lia|lia]).
+      assert (Hm : (0 <= n * pow4b / Zpos d)%Z) by (apply Z.div_pos; [apply Z.mul_nonneg_nonneg; [lia|exact P4pos]|lia]).
       pose proof (zsqrt_spec _ Hm) as [Sx0 Sx]. fold x in Sx0, Sx.
       assert (P4 : pow4b = (Zpos pow2b * Zpos pow2b)%Z) by (vm_compute; reflexivity).
       pose proof (Z.mul_div_le (n * pow4b) (Zpos d) (Pos2Z.is_pos d)) as D1.
       pose proof (Z.mul_succ_div_gt (n * pow4b) (Zpos d) (Pos2Z.is_pos d)) as D2.
       assert (Lo : (x # pow2b) * (x # pow2b) <= q).
-      { rewrite <- Er. rewrite Qmake_sq. unfold Qle. cbn [Qnum Qden]. rewrite Pos2Z.inj_mul. rewrite <- P4. nia. }
+      { rewrite <- Er. rewrite Qmake_sq. unfold Qle. cbn [Qnum Qden]. rewrite Pos2Z.inj_mul. rewrite <- P4.
+          apply (Z.le_trans _ ((n * pow4b / Zpos d) * Zpos d)); [apply Z.mul_le_mono_nonneg_r; lia|lia]. }
       assert (Hi : q <= ((x + 1) # pow2b) * ((x + 1) # pow2b)).
       { rewrite <- Er. rewrite Qmake_sq. unfold Qle. cbn [Qnum Qden]. rewrite Pos2Z.inj_mul. rewrite <- P4.
-        unfold Z.succ in D2. nia. }
+          unfold Z.succ in D2.
+          apply (Z.le_trans _ ((n * pow4b / Zpos d + 1) * Zpos d)); [lia|apply Z.mul_le_mono_nonneg_r; lia]. }
       assert (E1 : ((x + 1) # pow2b) - (x # pow2b) == 1 # pow2b).
       { unfold Qeq, Qminus, Qplus, Qopp. cbn [Qnum Qden]. rewrite !Pos2Z.inj_mul. ring. }
       repeat split; try assumption.
-      * unfold Qle; cbn; lia.
-      * unfold Qle; cbn [Qnum Qden]. nia.
+      * unfold Qle; cbn [Qnum Qden]; lia.
+      * unfold Qle; cbn [Qnum Qden]. apply Z.mul_le_mono_nonneg_r; lia.
       * rewrite E1. lra.
 Qed.
 
